@@ -4,7 +4,8 @@ from props.common import bj
 LEVEL = 'other'
 CONTRACT_MODULES = ['contracts.c_heap']
 DEDUCTIVE = [{'fid': 'odml/base.py::Sectionable._match_iterable', 'mode': 'heap'},
-             {'fid': 'odml/base.py::SmartList.__getitem__', 'mode': 'heap'}]
+             {'fid': 'odml/base.py::SmartList.__getitem__', 'mode': 'heap'},
+             {'fid': 'odml/base.py::Sectionable.document.getter', 'mode': 'heap'}]
 TIMEOUT_S = 20
 from props.common import HEAP_ASSUMPTIONS as ASSUMPTIONS   # noqa: E402
 EXPLANATION = 'deductive: the name lookup used by every path step (_match_iterable) returns the one child of that name or raises ValueError iff there is none (uses the uniqueness invariant I6), and SmartList.__getitem__ returns the first match; everything else: '  'bounded stand-in: path round trips for all ordered pairs, traversal order/once/depth, find within relation, exhaustively over small trees'
